@@ -524,6 +524,11 @@ def gen_search_cfg(rng, thorough=False):
     if mode == "ghost":
         archs = ["mlp", "seq", "lin", "emb", "embseq", "conv", "ln", "gn"]
     spec = R.gen_spec(rng, archs=archs, ghost_safe=(mode == "ghost"))
+    if rng.random() < 0.15:
+        # a parameter with two uses in one forward pass: hooks / functorch / ew sum both uses; ghost clipping computes one
+        # norm per use and must REFUSE such a model (it does: NotImplementedError "Parameter tying is not supported")
+        spec = dict(spec, arch="tied")
+        spec.pop("rank", None)
     if mode == "ew" and clipping == "adaptive" and spec["arch"] in ("conv", "gn"):
         clipping = "flat"   # AdaClip uses .view on ExpandedWeights' non-contiguous conv grad_sample: raises (no release) — noted in the report
     return {"spec": spec, "B": rng.randint(2, 4 if not thorough else 6), "dseed": rng.randrange(1 << 30), "Cq": rng.choice([0.3, 0.8, 1.5]),
@@ -615,10 +620,18 @@ def run(ctx):
             try:
                 res = neighbour_oracle(cfg)
             except Exception as e:
+                if cfg["gsm_mode"] == "ghost" and cfg["spec"]["arch"] == "tied" and isinstance(e, NotImplementedError):
+                    ctx.count("search:ghost:tied-parameters-refused")   # the bound holds vacuously: nothing is released
+                    continue
+                # the unchanged tree takes every other generated step without raising
                 ctx.count("search:engine-raised:" + type(e).__name__)
+                ctx.property_failure(f"C02:search:engine-raised:{type(e).__name__}:{cfg['gsm_mode']}:{cfg['clipping']}:{cfg['spec']['arch']}",
+                                     f"one logical step raised {type(e).__name__}: {str(e)[:200]} (arch={cfg['spec']['arch']}, gsm={cfg['gsm_mode']}, clipping={cfg['clipping']}, max_phys={cfg.get('max_phys')})",
+                                     {"failing_input": dict(cfg)})
                 continue
             ctx.count(f"search:{cfg['gsm_mode']}:{cfg['clipping']}" + (":bmm" if cfg["max_phys"] else ""))
             ctx.count("search:rank-%d" % R.input_rank(cfg["spec"]))
+            ctx.count("search:arch:" + cfg["spec"]["arch"])
             if res:
                 ctx.property_failure(res[0], res[1], res[2])
 
